@@ -230,6 +230,14 @@ def verify(case, w, loader, rows, what, order="exact", full=True, check_ids=True
         case.check(abs(float(one.mean()) - rows[i]["code"]) <= TOLERANCES["code"],
                    f"{what}: load(i) is not molecule i", "batch.task-order-vs-molecule-order"
                    if w.batch else None, i=i, got=float(one.mean()), want=rows[i]["code"])
+        # load(<indices>): row j is molecule indices[j], for unsorted and repeated indices, list / tuple / range
+        idxs = [n - 1, 0, n - 1] + ([n // 2] if n > 2 else [])
+        for spec in (idxs, tuple(idxs), range(n - 1, -1, -1)):
+            sub_i = np.asarray(loader.load(spec))
+            want_i = np.array([rows[j]["code"] for j in spec])
+            ok_i = sub_i.shape[0] == len(want_i) and np.allclose(sub_i.reshape(len(want_i), -1).mean(1), want_i, atol=TOLERANCES["code"])
+            case.check(ok_i, f"{what}: load(indices) row j is not molecule indices[j]", None, spec=str(spec)[:40],
+                       got_rows=int(sub_i.shape[0]))
         df = loader.apply(np.mean, np.max, schema=["m", "mx"])
         ok = df.shape == (n, 2) and np.allclose(df["m"].to_numpy(), [r["code"] for r in rows], atol=TOLERANCES["code"])
         case.check(ok, f"{what}: apply() row r is not f(sub-volume of molecule r)",
